@@ -40,6 +40,38 @@ Proof.
   exists r', i'. exact (conj H1 (conj H2 (conj H3 (conj H4 (conj H5 H6))))).
 Qed.
 
+(* the same on any in-memory stream that stands at the object (not only one that starts there), with the good flag *)
+Theorem object_rt_stream : forall c, In c object_classes -> ~ In c rt_exceptions ->
+  forall s s' bytes, api_state c s -> enc cs default_cap c s = Ok (s', bytes) ->
+  forall i rest, nstream i -> s_after i = bytes ++ rest -> exists r' i',
+    dec cs scan_p default_cap c (fresh cs c) i = Ok (r', i') /\
+    nstream i' /\ s_after i' = rest /\ (s_good i = true -> s_good i' = true) /\
+    (forall f, In f (emitted cs (callf cs c) (emit_of c) s') -> r' f = s' f) /\
+    (forall f, ~ In f (emitted cs (callf cs c) (emit_of c) s') -> r' f = fresh cs c f).
+Proof.
+  intros c Hc Hex s s' bytes (Hw & Hd & Hsig & Hg) Henc i rest Hi Ha.
+  pose proof (forallb_minus rt_ok _ _ rt_all_b c Hc Hex) as Hok. unfold rt_ok in Hok.
+  apply andb_prop in Hok. destruct Hok as [Hok Hdef]. apply andb_prop in Hok. destruct Hok as [Hrt Hfw].
+  unfold enc in Henc. unfold dec.
+  destruct (object_roundtrip_stream cs (callf cs c) scan_p default_cap cap_ok sig_ok (Wp c) (Rp c) Hrt
+              s s' bytes Henc Hw Hd Hsig Hg (fresh cs c) i rest Hi Ha (fresh_wf cs c Hfw) (defined_b_ok _ _ Hdef))
+    as (r' & i' & H1 & H2 & H3 & Hgd & H4 & H5 & H6).
+  exists r', i'. exact (conj H1 (conj H2 (conj H3 (conj Hgd (conj H4 H5))))).
+Qed.
+
+(* the state write() leaves behind and its emission *)
+Theorem object_written : forall c, In c object_classes -> ~ In c rt_exceptions ->
+  forall s s' bytes, api_state c s -> enc cs default_cap c s = Ok (s', bytes) ->
+  run_w cs (callf cs c) default_cap (emit_of c) s' no_locals = Ok (s', bytes) /\ wf_state cs s' /\
+  defined_on (emitted cs (callf cs c) (emit_of c) s') s' /\ s' (sp_field scan_p) = VInt (sp_sig scan_p).
+Proof.
+  intros c Hc Hex s s' bytes (Hw & Hd & Hsig & Hg) Henc.
+  pose proof (forallb_minus rt_ok _ _ rt_all_b c Hc Hex) as Hok. unfold rt_ok in Hok.
+  apply andb_prop in Hok. destruct Hok as [Hok Hdef]. apply andb_prop in Hok. destruct Hok as [Hrt Hfw].
+  unfold enc in Henc.
+  exact (object_write_facts cs (callf cs c) scan_p default_cap cap_ok sig_ok (Wp c) (Rp c) Hrt s s' bytes Henc Hw Hd Hsig Hg).
+Qed.
+
 (* ---- framing facts that follow from the same checks (C03) ---- *)
 Lemma rt_ok_class c : In c object_classes -> ~ In c rt_exceptions -> class_rt_ok cs scan_p (Wp c) (Rp c) = true.
 Proof.
